@@ -80,17 +80,18 @@ Qed.
 Record MInv (m : mux) : Prop := {
   inv_rel_uniq : uniq (m_reliable m);
   inv_unrel_uniq : uniq (m_unreliable m);
-  inv_parity : m_parity m < 2
+  inv_parity : m_parity m < 2;
+  inv_queue : (List.length (m_queue m) <= accept_queue_cap)%nat
 }.
 
 Lemma minv_new : forall server, MInv (mux_new server).
-Proof. intros. constructor; simpl; try constructor. destruct server; lia. Qed.
+Proof. intros. constructor; simpl; try constructor. destruct server; lia. unfold accept_queue_cap. lia. Qed.
 
 Lemma tubes_of_set : forall m rel l rel', tubes_of (set_tubes m rel l) rel' = if Bool.eqb rel rel' then l else tubes_of m rel'.
 Proof. intros. destruct rel, rel'; reflexivity. Qed.
 
 Lemma minv_set_tubes : forall m rel l, MInv m -> uniq l -> MInv (set_tubes m rel l).
-Proof. intros m rel l [A B C] U. destruct rel; constructor; simpl; auto. Qed.
+Proof. intros m rel l [A B C D] U. destruct rel; constructor; simpl; auto. Qed.
 
 Lemma make_tube_spec : forall m rel ty id req m' t, make_tube m rel ty id req = Some (m', t) ->
   t = new_tube rel id ty (m_epoch m) /\
@@ -101,12 +102,17 @@ Lemma make_tube_spec : forall m rel ty id req m' t, make_tube m rel ty id req = 
   (MInv m -> MInv m').
 Proof.
   intros m rel ty id req m' t H. unfold make_tube in H. destruct (negb (m_running m)); [discriminate|].
+  destruct (negb req && queue_full m) eqn:QF; [discriminate|].
   inversion H; subst; clear H. split; auto. split; [|split; [|split; [|split; [|split; [|split]]]]]; auto.
   - unfold get_tube, tubes_of. destruct rel; simpl; rewrite N.eqb_refl; reflexivity.
   - intros rel' id' Hd. unfold get_tube, tubes_of. destruct rel, rel'; simpl; auto;
       try (destruct Hd as [Hd|Hd]; [congruence|]);
       (destruct (id =? id') eqn:E; [apply N.eqb_eq in E; congruence|]); apply find_remove_other; auto.
-  - intros [A B C]. destruct rel; constructor; simpl; auto; unfold uniq in *; simpl; constructor;
+  - intros [A B C D].
+    assert (Q: (List.length (if req then m_queue m else m_queue m ++ [new_tube rel id ty (m_epoch m)]) <= accept_queue_cap)%nat).
+    { destruct req; auto. cbn [negb andb] in QF. unfold queue_full in QF. apply Nat.leb_gt in QF.
+      rewrite app_length. cbn [List.length]. lia. }
+    destruct rel; constructor; simpl; auto; unfold uniq in *; simpl; constructor;
       try (apply uniq_remove; auto); intros X; apply ids_remove in X; tauto.
 Qed.
 
@@ -136,7 +142,7 @@ Theorem create_tube_err : forall m rel ty, MInv m -> m_running m = true -> creat
 Proof.
   intros m rel ty I R H x H1 H2. unfold create_tube, pick_tube_id in H. pose proof (inv_parity _ I) as Hp.
   destruct (pick_from (tubes_of m rel) (m_parity m) 128) as [g|] eqn:P.
-  - unfold make_tube in H. rewrite R in H. simpl in H. discriminate.
+  - unfold make_tube in H. rewrite R in H. cbn [negb andb] in H. discriminate.
   - assert (Pm: m_parity m mod 2 = m_parity m) by (apply N.mod_small; lia).
     apply (pick_from_none _ _ _ P); first [lia | congruence].
 Qed.
@@ -168,7 +174,7 @@ Theorem demux_spec : forall m f,
   (* an unknown (rel,id): a REQ on a running muxer creates exactly one tube with the opener's reliability, id and
      type, queues it once, and lets it handle the frame; anything else is dropped *)
   (get_tube m (mf_rel f) (mf_id f) = None ->
-     if mf_req f && m_running m then
+     if mf_req f && m_running m && negb (queue_full m) then
        let t := new_tube (mf_rel f) (mf_id f) (mf_type f) (m_epoch m) in
        get_tube (demux m f) (mf_rel f) (mf_id f) = Some (handled t f) /\ m_queue (demux m f) = m_queue m ++ [t]
      else demux m f = m) /\
@@ -192,8 +198,10 @@ Proof.
   - destruct (mf_req f) eqn:Rq.
     + destruct (make_tube m (mf_rel f) (mf_type f) (mf_id f) false) as [[m1 t]|] eqn:Mk.
       * destruct (make_tube_spec _ _ _ _ _ _ _ Mk) as (T & G1 & G2 & Q & _ & _ & R & Iv).
-        assert (Run: m_running m = true).
-        { unfold make_tube in Mk. destruct (m_running m); auto. discriminate. }
+        assert (Run: m_running m = true /\ queue_full m = false).
+        { unfold make_tube in Mk. destruct (m_running m); [|discriminate]. cbn [negb andb] in Mk.
+          destruct (queue_full m); [discriminate|auto]. }
+        destruct Run as [Run QF].
         assert (Hid: t_id t = mf_id f) by (subst t; reflexivity).
         replace (if true || mf_resp f then tube_receive_initiate t else tube_receive t f) with (handled t f)
           by (unfold handled; rewrite Rq; reflexivity).
@@ -203,15 +211,16 @@ Proof.
               rewrite find_replace_other by (rewrite handled_id; congruence). apply G2. auto.
            ++ rewrite get_set_other by auto. apply G2. auto.
         -- discriminate.
-        -- intros _. rewrite Run. simpl. rewrite <- T. split.
+        -- intros _. rewrite Run, QF. cbn [andb negb]. cbv zeta. rewrite <- T. split.
            ++ rewrite get_set_same. rewrite <- Hid, <- (handled_id t f).
               eapply find_replace_same. rewrite handled_id, Hid. exact G1.
            ++ simpl. destruct (mf_rel f); exact Q.
         -- intros I. specialize (Iv I). apply minv_set_tubes; auto. unfold uniq. rewrite ids_replace.
            destruct Iv. destruct (mf_rel f); auto.
-      * assert (Run: m_running m = false).
-        { unfold make_tube in Mk. destruct (m_running m); auto. discriminate. }
-        split; [auto|]. split; [discriminate|]. split; auto. intros _. rewrite Run. reflexivity.
+      * assert (Run: m_running m && negb (queue_full m) = false).
+        { unfold make_tube in Mk. destruct (m_running m); auto. cbn [negb andb] in Mk.
+          destruct (queue_full m); auto. discriminate. }
+        split; [auto|]. split; [discriminate|]. split; auto. intros _. cbn [andb]. rewrite Run. reflexivity.
     + split; [auto|]. split; [discriminate|]. split; auto. intros _. reflexivity.
 Qed.
 
@@ -228,7 +237,8 @@ Proof. intros m rel id I. unfold read_tube. destruct (get_tube m rel id) as [t|]
   - destruct (t_msgs t); simpl; auto. destruct (t_state t); simpl; auto;
       apply minv_set_tubes; auto; unfold uniq; rewrite ids_replace; destruct I; auto. Qed.
 Lemma accept_inv : forall m m' t, MInv m -> accept m = Some (m', t) -> MInv m'.
-Proof. intros m m' t [A B C] H. unfold accept in H. destruct (m_queue m); inversion H; subst. constructor; auto. Qed.
+Proof. intros m m' t [A B C D] H. unfold accept in H. destruct (m_queue m) eqn:Q; inversion H; subst.
+  constructor; auto. cbn [m_queue]. cbn [List.length] in D. lia. Qed.
 
 Lemma mstep_inv : forall m o, MInv m -> MInv (fst (mstep m o)).
 Proof.
